@@ -69,7 +69,13 @@ func (g *rgen) attr(depth int) *Attr {
 	a := &Attr{Before: pick(g.r, " ", " ", " ", " ", "\n", "\n\t", "  ")}
 	switch g.r.Intn(10) {
 	case 0, 1, 2, 3:
-		a.K, a.Name, a.Raw = AConst, pick(g.r, rAttrNames...), pick(g.r, rConstVals...)
+		a.K, a.Name = AConst, pick(g.r, rAttrNames...)
+		raw := pick(g.r, rConstVals...)
+		if raw[1] == '"' || raw[1] == '\'' {
+			a.Q, a.Val = raw[1:2], raw[2:len(raw)-1]
+		} else {
+			a.Val = raw[1:]
+		}
 	case 4:
 		a.K, a.Name = ABool, pick(g.r, "disabled", "hidden", "checked", "data-on")
 	case 5:
